@@ -117,6 +117,9 @@ static VhOp ops[] = {
 #ifdef VH_WITH_READER
 	vh_ops_reader,
 #endif
+#ifdef VH_WITH_TOOL
+	vh_ops_tool,
+#endif
 };
 
 #ifdef VH_RO_GLOBALS
